@@ -48,6 +48,14 @@ fn policy_json(v: &Validation) -> Value {
            "validate_aud": v.validate_aud, "aud": sorted(&v.aud), "iss": v.iss, "sub": v.sub, "alg": keys::alg_name(&v.algorithms)})
 }
 
+/// the fields of the real starting policy. C11 states what each step does and that every configured setting is
+/// enforced; it does not fix the starting values, so the model starts from these (`new(alg)` must still set the
+/// algorithm it is given: the model decides that field itself)
+fn start_policy_json(start: &str) -> Value {
+    let v = if start == "default" { Validation::default() } else { Validation::new(alg_of(start)) };
+    policy_json(&v)
+}
+
 fn canon_policy(p: &Value) -> Value {
     let mut q = p.clone();
     for k in ["required", "aud"] {
@@ -89,7 +97,7 @@ fn builder_sequence(ctx: &mut Ctx, start: &str, steps: &[Value]) -> Validation {
             }
         }
     }
-    let m = ctx.driver.ask(&json!({"op":"policy","start":start,"steps":steps}));
+    let m = ctx.driver.ask(&json!({"op":"policy","start":start,"init":start_policy_json(start),"steps":steps}));
     if canon_policy(&m["policy"]) != policy_json(&v) {
         ctx.report.diff("correspondence", "Validation builders", "builders:differ-from-model", &case, json!({"real": policy_json(&v), "model": m["policy"]}));
     }
@@ -203,7 +211,7 @@ fn enforcement_case(ctx: &mut Ctx, start: &str, steps: &[Value], validate_nbf: b
     ctx.report.bump(&format!("variant:{}", variant));
     ctx.report.nontrivial_case(&json!([start, steps, validate_nbf, variant]));
     let famname = match fam { 0 => "secret", 1 => "rsa", _ => "ec" };
-    let m = ctx.driver.ask(&json!({"op":"decide","start":start,"steps":steps,"validate_nbf":validate_nbf,"fam":famname,
+    let m = ctx.driver.ask(&json!({"op":"decide","start":start,"init":start_policy_json(start),"steps":steps,"validate_nbf":validate_nbf,"fam":famname,
         "hdr_alg":keys::alg_name(&sign_alg),"sig_ok":true,"payload":p,"now":now()}));
     let mclass = if m.get("ok").is_some() { "ok" } else if m.get("err").is_some() { "err" } else { "panic" };
     let outs: Vec<(&str, Out<()>)> = vec![
